@@ -84,6 +84,35 @@ def _pipe_one(idx):
     return {"idx": idx, "fail": None, "msgs": sum(len(x) for x in va[0].values())}
 
 
+def _prefix_one(idx):
+    """raw transports: a frame whose length prefix is out of range, directly behind a good request: the connection ends there
+    whether the bad prefix arrives in the same read as the request before it or in a later one, and what follows it is never
+    executed"""
+    import struct
+    r = C.rng("xdiff", "prefix", idx)
+    tr = r.choice(["raw", "uds"])
+    good = D.obj(method="add", params=D.obj(path="before", value=1), id=1)
+    after = D.jtext(D.obj(method="add", params=D.obj(path="after", value=2), id=2))
+    plen = r.choice([0x01000000, 0x02000000, 0x7f000000, 0x80000000, 0xff000000, 0x00010000, 0x00000201, 513, 0x01000100]) + (len(after) if r.random() < 0.7 else 0)
+    bad = ("rawframe", struct.pack(">I", plen & 0xffffffff) + after)
+    head = [("connect", 0, tr, "unix" if tr == "uds" else "local6"), ("connect", 1, "raw", "remote6"),
+            ("msg", 1, D.obj(method="fetch", params=D.obj(id="watch"), id=1))]
+    tail = [("quiesce",), ("msg", 1, D.obj(method="get", params=D.obj(), id=2)), ("quiesce",), ("eof", 1), ("quiesce",)]
+    third = D.obj(method="add", params=D.obj(path="third", value=3), id=3)
+    a_sc = D.Scenario(head + [("msg", 0, good), ("msg", 0, bad), ("msg", 0, third)] + tail, name="outside-model:prefix-%d-apart" % idx)
+    b_sc = D.Scenario(head + [("batch", [(0, good), (0, bad), (0, third)])] + tail, name="outside-model:prefix-%d-burst" % idx)
+    ra, rb = dcheck.run_one(a_sc), dcheck.run_one(b_sc)
+    for res, sc_ in ((ra, a_sc), (rb, b_sc)):
+        if res["res"]["sanitizer"] or res["log"].faults:
+            return {"idx": idx, "fail": "sanitizer/hygiene: %s %s" % (res["res"]["sanitizer"], res["log"].faults[:1]), "sc": sc_.to_json()}
+    va, vb = _view(a_sc, ra), _view(b_sc, rb)
+    if va != vb:
+        what = "streams" if va[0] != vb[0] else ("closed connections" if va[1] != vb[1] else "final element image")
+        return {"idx": idx, "fail": "a frame with length prefix 0x%08x behind a good request is treated differently when it arrives in the same read (%s differ)" % (plen & 0xffffffff, what),
+                "sc": b_sc.to_json()}
+    return {"idx": idx, "fail": None, "msgs": sum(len(x) for x in va[0].values())}
+
+
 def _fin_one(idx):
     """the last request of every connection and its end of stream arrive in ONE readiness event, or in two: the request must
     be processed either way (same answers, same effect on the others)"""
@@ -158,6 +187,16 @@ def segmentation(ctx, out, n_quick=120, n_thorough=2000):
     for r in badp[:2]:
         out.violation("whole daemon: " + r["fail"], {"property": "C09", "scenario": r["sc"], "what": r["fail"],
                                                      "family": "burst of requests in one readiness event vs. one event per request"})
+    badx = []
+    with ProcessPoolExecutor(C.NPROC) as ex:
+        for r in ex.map(_prefix_one, [ctx.seed * 1000003 + i for i in range(nf)], chunksize=2):
+            if r["fail"]:
+                badx.append(r)
+    for r in badx[:2]:
+        out.violation("whole daemon: " + r["fail"], {"property": "C09", "scenario": r["sc"], "what": r["fail"],
+                                                     "family": "out-of-range length prefix in the same read as the request before it vs. in a later read"})
+    out.coverage["daemon_bad_prefix_sessions"] = nf
+    out.coverage["daemon_bad_prefix_failures"] = len(badx)
     out.coverage["daemon_burst_sessions"] = nf
     out.coverage["daemon_burst_messages_compared"] = totp
     out.coverage["daemon_burst_failures"] = len(badp)
